@@ -5,6 +5,7 @@ package main
 
 import (
 	"encoding/hex"
+	"os"
 	"errors"
 	"fmt"
 	"strings"
@@ -133,7 +134,10 @@ type World struct {
 	nextID   int
 }
 
-func init() { logrus.SetLevel(logrus.PanicLevel) }
+func init() {
+	logrus.SetLevel(logrus.PanicLevel)
+	_ = os.Setenv("CORE_CHAINCODE_LOGGING_LEVEL", "critical")
+}
 
 func NewWorld() *World {
 	w := &World{Peer: NewPeer()}
